@@ -543,6 +543,12 @@ type c13DocCase struct {
 	doc    []byte
 	origin string // "generated", "dump", "nearmiss", "bytes", "non-utf8"
 	name   string // mutation name etc.; stable
+	// sized documents (c13_size.go): where the defect sits relative to the
+	// buffer boundary the document was built around (part of the finding key),
+	// the long place, and a description of the construction for the report
+	sized  string
+	filler string
+	note   string
 }
 
 type c13Outcome struct {
@@ -602,8 +608,8 @@ func c13OutcomeStr(o c13Outcome) string {
 // c13Judge is the verdict for one (document, mode, call form).
 func c13Judge(w *fw.W, c *c13RT, dc c13DocCase, doc *c13x.Doc, di *c13DocInfo, m c13Mode, form string, o c13Outcome) {
 	detail := func(extra string) string {
-		return fmt.Sprintf("document (%s %s): %s\nmode: %s via %s\nindependent recognizer: valid=%v utf8=%v err=%q at %d\nelps: %s\n%s",
-			dc.origin, dc.name, c13Hex(dc.doc), m, form, doc.Valid, doc.UTF8, doc.Err, doc.ErrOff, c13OutcomeStr(o), extra)
+		return fmt.Sprintf("document (%s %s): %s\n%smode: %s via %s\nindependent recognizer: valid=%v utf8=%v err=%q at %d\nelps: %s\n%s",
+			dc.origin, dc.name, c13Hex(dc.doc), dc.note, m, form, doc.Valid, doc.UTF8, doc.Err, doc.ErrOff, c13OutcomeStr(o), extra)
 	}
 	if o.t.Panic {
 		w.Violation("load-internal-panic:"+c13KeyName(dc, doc), "json:load raised an internal panic", detail(""))
@@ -664,6 +670,10 @@ func c13Judge(w *fw.W, c *c13RT, dc c13DocCase, doc *c13x.Doc, di *c13DocInfo, m
 			return
 		}
 		cls := c13ShrinkReject(c, dc.doc, doc, m)
+		if cls == "composite" && dc.sized != "" {
+			// every leaf loads alone: what is rejected is the long document
+			cls = "sized:" + dc.filler
+		}
 		w.Violation("valid-rejected:"+m.String()+":"+cls,
 			fmt.Sprintf("valid JSON text rejected in %s mode (%s)", m, o.t.Cond), detail("smallest failing part: "+cls))
 		return
@@ -994,6 +1004,9 @@ func c13KeyName(dc c13DocCase, doc *c13x.Doc) string {
 	}
 	if doc != nil && !doc.Valid && (dc.origin == "bytes" || strings.HasPrefix(name, "nearmiss:byte-noise") || name == "nearmiss:truncated") {
 		name += ":" + c13ErrClass(doc.Err)
+	}
+	if dc.sized != "" && dc.origin == "nearmiss" {
+		name += ":sized:" + dc.sized
 	}
 	return name
 }
